@@ -753,11 +753,6 @@ VERUS["gate_unbounded"] = dict(
 STATIC["backend_state_after_refusal"] = dict(props=["C05"], fn=scan_backend_state, obligation="C05.refusal.no-hidden-state",
                                              replay_static=lambda verif: _replay_bin("c05_refusal_relife", [], verif), soft=True)
 
-# wave 9 (seed C17-i): the flush of a restoration may not be deferred past a point that can panic
-H("c17_drop_restore_fault", props=["C17", "C05", "C02"], fns=_INJ_FNS + [(COM, "drop"), (COM, "patch_function")], expects_panic=True, covers=[],
-  covers_unreachable=["COVER:drop-returned-despite-failing-restoration"], shared={"C17.unwind.flushed": ["C05"], "C17.unwind.restored": ["C05", "C02"]},
-  bounded="one history: an older guard whose restoration is refused (mprotect) below one real installation; 16-byte pages", timeout=600, **_MODS_INJ)
-
 # wave 9 (seed C12-i): a trampoline released while the injector lives (and then again at drop) is a C12 matter as
 # much as a C02 one: "released exactly once when the injector goes away"
 for _k in range(1, 8):
@@ -769,3 +764,22 @@ for _k in range(1, 8):
 # page) decides.
 STATIC["backend_state_many_fakes"] = dict(props=["C03", "C12"], fn=scan_backend_state, obligation="C03.frame.no-hidden-state",
                                           replay_static=lambda verif: _replay_bin("c03_many_fakes", [], verif), soft=True)
+
+
+# wave 9 (seed C17-i): the flush of a restoration may not be deferred past a point that can panic. The modular
+# argument is: InjectorPP::drop restores each guard by dropping it (Verus unit drop_order_unbounded), and
+# PatchGuard::drop writes, releases and flushes with nothing refusable in between (C17.drop / C17.drop.last on the
+# lifecycles). When the drop of the injector no longer has that shape (the unit loses its anchor), the executions on
+# which a later guard's restoration is refused are decided by a native replay: flush requests observed by
+# interposing __clear_cache. (A Kani harness for the same obligation — two guards, second mprotect refused — did
+# not finish within 600 s / 20 GB and is not registered.)
+def scan_drop_shape(repo):
+    try:
+        verus_drop.build(repo)
+    except extract.LostAnchor as e:
+        return False, "the injector's drop is not the pop-and-drop loop (%s): whether every restored range is flushed before a later restoration can fail is not covered by PatchGuard::drop's contract" % e
+    return True, "the injector's drop restores each guard by dropping it: PatchGuard::drop's own contract (write, release, flush, nothing refusable in between) covers executions that unwind out of a later guard's restoration"
+
+
+STATIC["drop_flushes_before_next_restore"] = dict(props=["C17"], fn=scan_drop_shape, obligation="C17.unwind.flushed",
+                                                  replay_static=lambda verif: _replay_bin("c17_unwind_flush", [], verif), soft=True)
